@@ -67,7 +67,12 @@ func vTunnel(sock *vSock, tcp bool) *Tunnel {
 	}
 }
 
-var c04Msgs = [8]cemi.Message{&cemi.LDataInd{}, &cemi.LDataInd{}, &cemi.LDataInd{}, &cemi.LDataInd{}, &cemi.LDataInd{}, &cemi.LDataInd{}, &cemi.LDataInd{}, &cemi.LDataInd{}}
+// c04Msgs: eight distinct telegrams of different cEMI kinds (the tunnel relays every kind: what is
+// delivered or sent must not depend on it).
+var c04Msgs = func() [8]cemi.Message {
+	bm := cemi.LBusmonInd{0xbc, 0x11, 0x01}
+	return [8]cemi.Message{&cemi.LDataInd{}, &cemi.LDataCon{}, &cemi.LDataReq{}, &bm, &cemi.LRawInd{}, &cemi.UnsupportedMessage{Code: 0xfc}, &cemi.LRawCon{}, &cemi.LDataInd{}}
+}()
 
 // c09Gateway answers connect requests with the given channel, heartbeats with OK and (optionally)
 // tunnelling requests with an acknowledgement.
